@@ -140,6 +140,28 @@ class NumpyProxy:
             return 0
         return _np.zeros_like(x, *a, **k)
 
+    def zeros(self, shape, *a, **k):
+        if sx._CUR is None:
+            return _np.zeros(shape, *a, **k)
+        out = _np.empty(shape, dtype=object)
+        for i in range(out.size):
+            out.flat[i] = 0
+        return out
+
+    def any(self, x, *a, **k):
+        if isinstance(x, _np.ndarray) and x.dtype == object:
+            return any(bool(v) for v in x.flat)
+        if isinstance(x, sx.SymBool):
+            return bool(x)
+        return _np.any(x, *a, **k)
+
+    def all(self, x, *a, **k):
+        if isinstance(x, _np.ndarray) and x.dtype == object:
+            return all(bool(v) for v in x.flat)
+        if isinstance(x, sx.SymBool):
+            return bool(x)
+        return _np.all(x, *a, **k)
+
     def isclose(self, a, b, *args, **k):
         if _is_sym(a) or _is_sym(b):
             return sx.eq(a, b)
